@@ -1,4 +1,4 @@
-"""C02 check configuration. Open findings C02-N1..N8 (known/C02.json); F7, F18, F20, F21 were repaired in /repo."""
+"""C02 check configuration. Open findings C02-N7, C02-N8 (known/C02.json); F7 F18 F20 F21 and N1..N6 were repaired in /repo."""
 
 import re
 
@@ -12,45 +12,6 @@ def _meta(case, rw):
     return case.get("kind") == "meta" and case.get("rw") in rw
 
 
-def n1(case, rec, exp):
-    a, b = _diff(rec)
-    f = case.get("feat") or []
-    return _meta(case, ("capture", "evalvis", "tostring_eval")) and "surplus_args" in f and \
-        ("uninit_var_read" in f or "tdz_probe" in f) and a in ("log:str:undefined", "log:str:RE") and \
-        b is not None and b.startswith("log:str:")
-
-
-def n2(case, rec, exp):
-    a, b = _diff(rec)
-    return _meta(case, ("capture",)) and "fwd_default_capture" in (case.get("feat") or []) and \
-        b in ("throw:ReferenceError", "log:str:RE")      # the TDZ error escapes, or a try/catch of the program logs it
-
-
-def n3(case, rec, exp):
-    return _meta(case, ("newtarget_undef",)) and _diff(rec) == ("log:str:function", "log:str:undefined")
-
-
-def n4(case, rec, exp):
-    return case.get("kind") == "args" and case.get("variant") == "evalvar"
-
-
-def n5(case, rec, exp):
-    a, b = _diff(rec)
-    if not (_meta(case, ("computed_key",)) and "set [" in case.get("b", "") and a and b
-            and a.startswith("log:str:") and b.startswith("log:str:")):
-        return False
-    sa, sb = a[8:], b[8:]
-    if sa.replace(":ECa", ":eCa") == sb.replace(":ECa", ":eCa"):      # attribute dump: only accessor enumerability differs
-        return True
-    extra = set(filter(None, sb.split(","))) - set(filter(None, sa.split(",")))
-    return bool(extra) and extra <= {"w", "sw"}                         # Object.keys: only the setters appear
-
-
-def n6(case, rec, exp):
-    return _meta(case, ("withvis",)) and "selfassign_strict_inner" in (case.get("feat") or []) and \
-        _diff(rec) == ("log:str:TE", "log:str:nothrow")
-
-
 def n7(case, rec, exp):
     a, b = _diff(rec)
     return _meta(case, ("const2var",)) and case.get("place") == "eval" and not case.get("strict") and \
@@ -61,8 +22,7 @@ def n8(case, rec, exp):
     # the program executes a sloppy `fnK = 1;` on its own function-name binding: from then on operand-stack
     # slots of that activation are shifted, which any rewrite may turn into a visible difference or a host panic
     return case.get("kind") == "meta" and not case.get("strict") and "selfassign" in (case.get("feat") or []) and \
-        re.search(r'(?<!"use strict"; )try \{ fn\d* = 1;', case.get("a", "").replace('\\"', '"')) is not None and \
-        not n6(case, rec, exp)
+        re.search(r'(?<!"use strict"; )try \{ fn\d* = 1;', case.get("a", "").replace('\\"', '"')) is not None
 
 
 CFG = {
@@ -112,12 +72,6 @@ CFG = {
         "definitional mode (PSpec) of the environment semantics",
     ],
     "predicates": {
-        "C02.surplus_args_leak_into_stash_local": n1,
-        "C02.forward_captured_default_param": n2,
-        "C02.new_target_leaks_into_plain_call": n3,
-        "C02.mapped_arguments_stale_after_eval_var": n4,
-        "C02.class_computed_setter_enumerable": n5,
-        "C02.strict_store_to_function_name_through_with": n6,
         "C02.sloppy_eval_function_decl_cannot_see_eval_lexicals": n7,
         "C02.sloppy_store_to_function_name_leaks_stack": n8,
     },
